@@ -348,7 +348,7 @@ fn fixtures(ctx: &mut Ctx) {
 }
 
 pub fn run(ctx: &mut Ctx) {
-    let n = ctx.n(1500, 40_000);
+    let n = ctx.n(1500, 80_000);
     for i in 0..n {
         if ctx.mine(i) {
             ctx.begin(i);
